@@ -202,6 +202,44 @@ implement Index for Grid {
 }
 "#;
 
+const LBL_DECLS: &str = r#"interface Lbl {
+  fn label(prefix: string, x: Self) -> string
+  fn pick(k: int, a: Self, b: Self) -> Self
+}
+implement Lbl for int {
+  fn label(prefix, x) {
+    prefix .. "int:" .. x
+  }
+  fn pick(k, a, b) {
+    if k == 0 { a } else { b }
+  }
+}
+implement Lbl for string {
+  fn label(prefix, x) {
+    prefix .. "string:" .. x
+  }
+  fn pick(k, a, b) {
+    if k == 0 { a } else { b }
+  }
+}
+implement Lbl for Ua {
+  fn label(prefix, x) {
+    prefix .. "Ua:" .. x.x
+  }
+  fn pick(k, a, b) {
+    if k == 0 { b } else { a }
+  }
+}
+implement Lbl for Uc {
+  fn label(prefix, x) {
+    prefix .. "Uc:" .. x
+  }
+  fn pick(k, a, b) {
+    if k == 0 { a } else { b }
+  }
+}
+"#;
+
 const GENERICS: &str = r#"fn show(x: T ToString) -> string {
   "<" .. x .. ">"
 }
@@ -234,6 +272,12 @@ fn hcode(x: T Hash) -> int {
 }
 fn addup(a: T Num, b: T) -> T {
   a + b
+}
+fn glabel(x: T Lbl) -> string {
+  Lbl.label("g ", x)
+}
+fn gpick(k: int, a: T Lbl, b: T) -> string {
+  Lbl.label("p ", Lbl.pick(k, a, b))
 }
 fn lshow(x: T ToString) -> string {
   let g = () -> "<" .. x .. ">"
@@ -493,6 +537,10 @@ pub enum Call {
     ClosShow(u8, Gv),
     /// a lambda capturing two generic parameters and using the constraint's operator
     ClosSame(Gv, Gv),
+    /// user interface whose methods take `Self` in a later position: 0 direct, 1 through a generic function
+    Label(u8, Gv),
+    /// Lbl.pick(k, a, b) through a generic function (Self in positions 2 and 3 and as the result)
+    Pick(u8, Gv, Gv),
     First(Vec<Gv>),
     Hcode(Gv),
     AddUp(i64, i64, i64, i64),
@@ -603,6 +651,45 @@ fn emit(c: &Call, k: usize, m: &mut M, spec_fns: &mut Vec<String>) -> Option<(St
             let r = m.eq(a, b);
             m.out.push_str(&format!("{r}\n"));
             Some((format!("println(lsame({}, {}))\n", a.lit(), b.lit()), format!("println({f}({}, {}))\n", a.lit(), b.lit())))
+        }
+        Call::Label(which, v) => {
+            let tag = match v {
+                Gv::Int(n) => format!("int:{n}"),
+                Gv::Str(x) => format!("string:{x}"),
+                Gv::Ua(n) => format!("Ua:{n}"),
+                Gv::Uc(_) => format!("Uc:{}", v.render()),
+                _ => return None,
+            };
+            if which % 2 == 0 {
+                m.out.push_str(&format!("d {tag}\n"));
+                let c = format!("println(Lbl.label(\"d \", {}))\n", v.lit());
+                Some((c.clone(), c))
+            } else {
+                let f = spec("glabel", &[("x", v.ty())], "string".into(), "Lbl.label(\"g \", x)", spec_fns);
+                m.out.push_str(&format!("g {tag}\n"));
+                Some((format!("println(glabel({}))\n", v.lit()), format!("println({f}({}))\n", v.lit())))
+            }
+        }
+        Call::Pick(k, a, b) => {
+            if a.ty() != b.ty() {
+                return None;
+            }
+            let k = (*k % 2) as i64;
+            // Ua's implementation picks the other way round
+            let chosen = match a {
+                Gv::Ua(_) => if k == 0 { b } else { a },
+                Gv::Int(_) | Gv::Str(_) | Gv::Uc(_) => if k == 0 { a } else { b },
+                _ => return None,
+            };
+            let tag = match chosen {
+                Gv::Int(n) => format!("int:{n}"),
+                Gv::Str(x) => format!("string:{x}"),
+                Gv::Ua(n) => format!("Ua:{n}"),
+                _ => format!("Uc:{}", chosen.render()),
+            };
+            let f = spec("gpick", &[("k", "int".into()), ("a", a.ty()), ("b", a.ty())], "string".into(), "Lbl.label(\"p \", Lbl.pick(k, a, b))", spec_fns);
+            m.out.push_str(&format!("p {tag}\n"));
+            Some((format!("println(gpick({k}, {}, {}))\n", a.lit(), b.lit()), format!("println({f}({k}, {}, {}))\n", a.lit(), b.lit())))
         }
         Call::First(vs) => {
             if vs.is_empty() || vs.iter().any(|x| x.ty() != vs[0].ty()) {
@@ -765,7 +852,7 @@ impl Prop for Dispatch {
         "dispatch"
     }
     fn rule(&self) -> &'static str {
-        "one case = 4..24 calls over user types (Ua, Ub, Uc, Vec2, Cnt, Grid) whose Equal / Ord / ToString / Clone / Hash / Num / Iterable+Iterator / Index implementations print a tag, and built-in types: generic functions (show, wrap_show, same, differ, maxof, ordered, dup, apply with a lambda calling a generic function, first, hcode, addup, and lshow / lshow2 / tshow / lsame whose bodies are a lambda, a nested lambda or a task block capturing the generic parameters) instantiated at ints, strings, bools, user types, arrays, tuples and options; operators, `for`, `x[i]`, `x[i] +=`, method syntax and Iface.method(x); expected output (tag sequence and results) from a harness-side model of every implementation including the prelude's derived Equal/Ord/Hash/Clone for arrays and tuples; the same calls with hand-specialised copies of the generic functions must print the same; non-trivial = a generic function is instantiated at >= 2 different types, one of them a user type; distinct by case"
+        "one case = 4..24 calls over user types (Ua, Ub, Uc, Vec2, Cnt, Grid) whose Equal / Ord / ToString / Clone / Hash / Num / Iterable+Iterator / Index implementations print a tag, and built-in types: generic functions (show, wrap_show, same, differ, maxof, ordered, dup, apply with a lambda calling a generic function, first, hcode, addup, lshow / lshow2 / tshow / lsame whose bodies are a lambda, a nested lambda or a task block capturing the generic parameters, and glabel / gpick over a user interface whose methods take Self in a later parameter position and return Self) instantiated at ints, strings, bools, user types, arrays, tuples and options; operators, `for`, `x[i]`, `x[i] +=`, method syntax and Iface.method(x); expected output (tag sequence and results) from a harness-side model of every implementation including the prelude's derived Equal/Ord/Hash/Clone for arrays and tuples; the same calls with hand-specialised copies of the generic functions must print the same; non-trivial = a generic function is instantiated at >= 2 different types, one of them a user type; distinct by case"
     }
     fn n_cases(&self, tier: Tier) -> u32 {
         tier.pick(5000, 50000)
@@ -784,6 +871,9 @@ impl Prop for Dispatch {
             3 => (0u8..3, gv_strategy()).prop_map(|(w, v)| Call::ClosShow(w, v)),
             1 => (gv_strategy(), gv_strategy()).prop_map(|(a, b)| Call::ClosSame(a, b)),
             1 => gv_strategy().prop_map(|a| Call::ClosSame(a.clone(), a)),
+            2 => (0u8..2, gv_strategy()).prop_map(|(w, v)| Call::Label(w, v)),
+            2 => (0u8..2, gv_strategy(), gv_strategy()).prop_map(|(k, a, b)| Call::Pick(k, a, b)),
+            1 => (0u8..2, gv_strategy()).prop_map(|(k, a)| Call::Pick(k, a.clone(), a)),
             1 => (gv_strategy(), 1usize..3).prop_map(|(v, k)| Call::First(vec![v; k])),
             2 => gv_strategy().prop_map(Call::Hcode),
             1 => (n.clone(), n.clone(), n.clone(), n.clone()).prop_map(|(a, b, c, d)| Call::AddUp(a, b, c, d)),
@@ -818,6 +908,8 @@ impl Prop for Dispatch {
                         Call::ApplyShow(v) => ("apply", Some(v.ty())),
                         Call::ClosShow(w, v) => (["lshow", "lshow2", "tshow"][(*w % 3) as usize], Some(v.ty())),
                         Call::ClosSame(a, _) => ("lsame", Some(a.ty())),
+                        Call::Label(w, v) => (if w % 2 == 0 { "direct" } else { "glabel" }, if w % 2 == 0 { None } else { Some(v.ty()) }),
+                        Call::Pick(_, a, _) => ("gpick", Some(a.ty())),
                         Call::First(v) => ("first", Some(v[0].ty())),
                         Call::Hcode(v) => ("hcode", Some(v.ty())),
                         Call::AddUp(..) => ("addup", Some("Vec2+int".into())),
@@ -835,8 +927,8 @@ impl Prop for Dispatch {
                 }
             }
         }
-        let generic_src = format!("{DECLS}{GENERICS}{generic_main}");
-        let spec_src = format!("{DECLS}{}{spec_main}", spec_fns.concat());
+        let generic_src = format!("{DECLS}{LBL_DECLS}{GENERICS}{generic_main}");
+        let spec_src = format!("{DECLS}{LBL_DECLS}{}{spec_main}", spec_fns.concat());
         let rg = try_exec!(env.run1(&generic_src, &RunOpts::default()));
         let rs = try_exec!(env.run1(&spec_src, &RunOpts::default()));
         st.evals = 2;
